@@ -11,6 +11,8 @@ THEOREMS = ["QExPy.C07_poly_model", "QExPy.C07_lin", "QExPy.C07_quad", "QExPy.C0
             "QExPy.C07_chi2_nonneg", "QExPy.C07_perr_sq", "QExPy.C07_corr_registered",
             "QExPy.C07_corr_diag", "QExPy.C07_corr_symm", "QExPy.C07_corr_bounded", "QExPy.C07_cov_roundtrip",
             "QExPy.C07_band", "QExPy.C07_band_all", "QExPy.C07_band_poly", "QExPy.C07_band_preset", "QExPy.C07_reversed_fold_witness", "QExPy.C07_grad_exact",
+            "QExPy.C07_session_step_invisible", "QExPy.C07_session_invisible",
+            "QExPy.C07_session_reset_correlations_forgets",
             "QExPy.C01_quadratic_form", "QExPy.C03_diff_correct"]
 RULE = ("the C06 fits on the whole data set (every pre-set model, polynomial degrees 1-5, three user "
         "models, every sigma pattern incl. sigma_y with exact zeros, every data-passing form, 60 % "
